@@ -129,3 +129,23 @@ func (g *PipeGate) Close() {
 	syscall.Close(g.schedR)
 	syscall.Close(g.schedW)
 }
+
+// pollIn waits up to ms milliseconds for fd to become readable (raw poll(2):
+// no race-detector annotations, like the rest of the pipe gate).
+//
+//go:norace
+func pollIn(fd int, ms int) bool {
+	type pollfd struct {
+		fd      int32
+		events  int16
+		revents int16
+	}
+	p := pollfd{fd: int32(fd), events: 1} // POLLIN
+	for {
+		n, _, e := syscall.Syscall(syscall.SYS_POLL, uintptr(unsafe.Pointer(&p)), 1, uintptr(ms))
+		if e == syscall.EINTR {
+			continue
+		}
+		return e == 0 && n == 1 && p.revents&1 != 0
+	}
+}
